@@ -33,6 +33,9 @@ type World struct {
 	Module string `json:"module"`
 	Pkgs   []Pkg  `json:"pkgs"` // topological: a package imports only earlier ones
 	Cfg    Config `json:"config"`
+	// Faults: "<package path>|<file>" -> eio | empty | short:<n>: what
+	// pass.ReadFile gives for that file at report time, in every execution.
+	Faults map[string]string `json:"read_faults,omitempty"`
 }
 
 func (w *World) Index(path string) int {
@@ -53,11 +56,38 @@ func (w *World) Dir(p *Pkg) string {
 // then appears to drivers as two nodes: the plain and the test variant).
 func (p *Pkg) HasTestFiles() bool {
 	for _, f := range p.Files {
-		if strings.HasSuffix(f.Name, "_test.go") {
+		if strings.HasSuffix(f.Name, "_test.go") && f.Name != ExtTestFile {
 			return true
 		}
 	}
 	return false
+}
+
+// ExtTestFile is the one file of a package that belongs to its external test
+// package (package <name>_test).
+const ExtTestFile = "ext_test.go"
+
+// HasExtTest reports whether the package has an external test package.
+func (p *Pkg) HasExtTest() bool {
+	for _, f := range p.Files {
+		if f.Name == ExtTestFile {
+			return true
+		}
+	}
+	return false
+}
+
+// OutcomePaths lists the import paths under which the drivers report the
+// given roots: the package itself and, if it has one, its external test package.
+func (w *World) OutcomePaths(roots []string) []string {
+	var out []string
+	for _, r := range roots {
+		out = append(out, r)
+		if i := w.Index(r); i >= 0 && w.Pkgs[i].HasExtTest() {
+			out = append(out, r+"_test")
+		}
+	}
+	return out
 }
 
 // TransitiveDeps returns the indices of all packages reachable from i (excluding i), sorted.
@@ -85,6 +115,12 @@ func (w *World) TransitiveDeps(i int) []int {
 // Clone deep-copies a world.
 func (w *World) Clone() *World {
 	c := &World{Module: w.Module, Cfg: w.Cfg}
+	if w.Faults != nil {
+		c.Faults = map[string]string{}
+		for k, v := range w.Faults {
+			c.Faults[k] = v
+		}
+	}
 	for _, p := range w.Pkgs {
 		q := Pkg{Path: p.Path, Name: p.Name, Imports: append([]string(nil), p.Imports...)}
 		q.Files = append([]File(nil), p.Files...)
@@ -104,7 +140,7 @@ func (w *World) Hash() uint64 {
 		h ^= 0xff
 		h *= 1099511628211
 	}
-	add(fmt.Sprintf("%v|%s|%s", w.Cfg.ScanTests, w.Cfg.ExcludePaths, w.Cfg.ExcludeChecks))
+	add(fmt.Sprintf("%v|%s|%s|%v", w.Cfg.ScanTests, w.Cfg.ExcludePaths, w.Cfg.ExcludeChecks, len(w.Faults)))
 	for _, p := range w.Pkgs {
 		add(p.Path)
 		add(p.Name)
